@@ -7,6 +7,8 @@ use std::panic;
 mod util;
 mod lexmode;
 mod pipemode;
+mod sexp;
+mod coremode;
 
 fn main() {
     let args: Vec<String> = std::env::args().collect();
@@ -55,6 +57,7 @@ fn dispatch(mode: &str, payload: &str) -> String {
     match mode {
         "lex" => lexmode::lex(payload),
         "pipe" => pipemode::pipe(payload),
+        "core" => coremode::print(payload),
         "multi" => pipemode::multi(payload),
         _ => format!("BADMODE {mode}"),
     }
